@@ -195,6 +195,29 @@ fn cids_of_interest(stream: &[u8], has_ex: bool) -> Vec<i32> {
     v
 }
 
+/// ` P <cid:x:y,…> I <cid:v0:…:v9,…>`: what `player_pos` / `input` return after the last call for
+/// every client id that occurred in an emitted table item (every table entry was created by a
+/// `PlayerNew` / `Input` item), ascending; entries that are `None` are left out.
+fn access_str(evs: &[Ev], pos: &dyn Fn(i32) -> Option<(i32, i32)>, inp: &dyn Fn(i32) -> Option<[i32; 10]>) -> String {
+    let mut cids: Vec<i32> = evs
+        .iter()
+        .filter_map(|e| match e {
+            Ev::New(c, _, _) | Ev::Change(c, _, _, _, _) | Ev::Old(c, _, _) | Ev::Input(c, _) => Some(*c),
+            _ => None,
+        })
+        .filter(|c| *c >= 0)
+        .collect();
+    cids.sort();
+    cids.dedup();
+    let ps: Vec<String> = cids.iter().filter_map(|&c| pos(c).map(|(x, y)| format!("{}:{}:{}", c, x, y))).collect();
+    let is: Vec<String> = cids
+        .iter()
+        .filter_map(|&c| inp(c).map(|v| format!("{}:{}", c, v.iter().map(|x| x.to_string()).collect::<Vec<_>>().join(":"))))
+        .collect();
+    let j = |l: Vec<String>| if l.is_empty() { "-".to_string() } else { l.join(",") };
+    format!("P {} I {}", j(ps), j(is))
+}
+
 /// Reads header + stream with the given read sizes; `Err` = the reader panicked.
 fn read_all(total: &[u8], ds: &[usize]) -> Result<Out, String> {
     read_all_q(total, ds, &[])
@@ -213,7 +236,7 @@ fn read_all_q(total: &[u8], ds: &[usize], ask: &[i32]) -> Result<Out, String> {
             Ok(x) => x,
             Err(e) => {
                 let fin = format!("err:{}", err_str(&e));
-                return Out { line: format!("{} 0 0 -", fin), evs, fin, header_version: None, cids_end: 0, final_pos: vec![], final_inp: vec![] };
+                return Out { line: format!("{} 0 0 - P - I -", fin), evs, fin, header_version: None, cids_end: 0, final_pos: vec![], final_inp: vec![] };
             }
         };
         let mut items: Vec<String> = vec![];
@@ -236,7 +259,8 @@ fn read_all_q(total: &[u8], ds: &[usize], ask: &[i32]) -> Result<Out, String> {
             }
         }
         let maxcid = rd.cids().end;
-        let line = format!("{} {} {} {}", fin, maxcid, items.len(), if items.is_empty() { "-".to_string() } else { items.join(" ") });
+        let acc = access_str(&evs, &|c| rd.player_pos(c).map(|p| (p.x, p.y)), &|c| rd.input(c));
+        let line = format!("{} {} {} {} {}", fin, maxcid, items.len(), if items.is_empty() { "-".to_string() } else { items.join(" ") }, acc);
         let final_pos = ask.iter().map(|&c| (c, rd.player_pos(c).map(|p| (p.x, p.y)))).collect();
         let final_inp = ask.iter().map(|&c| (c, rd.input(c))).collect();
         Out { line, evs, fin, header_version: Some(ver), cids_end: maxcid, final_pos, final_inp }
@@ -298,7 +322,7 @@ fn read_all_file(total: &[u8], ds: &[usize], ask: &[i32]) -> Result<Out, String>
             Ok(x) => x,
             Err(e) => {
                 let fin = format!("err:{}", ferr(&e));
-                return Out { line: format!("{} 0 0 -", fin), evs, fin, header_version: None, cids_end: 0, final_pos: vec![], final_inp: vec![] };
+                return Out { line: format!("{} 0 0 - P - I -", fin), evs, fin, header_version: None, cids_end: 0, final_pos: vec![], final_inp: vec![] };
             }
         };
         let mut items: Vec<String> = vec![];
@@ -321,7 +345,8 @@ fn read_all_file(total: &[u8], ds: &[usize], ask: &[i32]) -> Result<Out, String>
             }
         }
         let maxcid = rd.cids().end;
-        let line = format!("{} {} {} {}", fin, maxcid, items.len(), if items.is_empty() { "-".to_string() } else { items.join(" ") });
+        let acc = access_str(&evs, &|c| rd.player_pos(c).map(|p| (p.x, p.y)), &|c| rd.input(c));
+        let line = format!("{} {} {} {} {}", fin, maxcid, items.len(), if items.is_empty() { "-".to_string() } else { items.join(" ") }, acc);
         let final_pos = ask.iter().map(|&c| (c, rd.player_pos(c).map(|p| (p.x, p.y)))).collect();
         let final_inp = ask.iter().map(|&c| (c, rd.input(c))).collect();
         Out { line, evs, fin, header_version: Some(ver), cids_end: maxcid, final_pos, final_inp }
@@ -1303,8 +1328,28 @@ impl Hist {
         if implicit_ok && !rng.chance(1, 10) {
             // the player record itself advances the tick
         } else {
-            self.w.int(item::TICK_SKIP);
-            self.w.int(dt as i32);
+            // one TICK_SKIP, or — when at least two ticks are to be skipped, every second time — a
+            // run of 2–4 consecutive TICK_SKIPs that advance by the same amount in total (the
+            // second and later ones arrive while no tick is open; seeded change C17-6)
+            let adv = dt + 1;
+            let k = if adv >= 2 && rng.chance(1, 2) { (2 + rng.below(3) as i64).min(adv) } else { 1 };
+            let mut parts = vec![1i64; k as usize];
+            let extra = adv - k;
+            if rng.chance(1, 2) {
+                let j = rng.below(k as u64) as usize;
+                parts[j] += extra;
+            } else {
+                let mut left = extra;
+                for j in 0..k as usize {
+                    let take = if j + 1 == k as usize { left } else { rng.below(left as u64 + 1) as i64 };
+                    parts[j] += take;
+                    left -= take;
+                }
+            }
+            for a in parts {
+                self.w.int(item::TICK_SKIP);
+                self.w.int((a - 1) as i32);
+            }
             self.implicit_cid = None;
         }
         self.written_tick = tick;
@@ -1465,6 +1510,13 @@ fn gen_history(rng: &mut Rng, ver: u32, size: usize, big: bool) -> Vec<u8> {
             tick += rng.below(100000) as i64;
         }
         hst.first_in_stream = false;
+    }
+    if rng.chance(1, 6) {
+        // a run of TICK_SKIPs right before FINISH
+        for _ in 0..2 + rng.below(3) {
+            hst.w.int(item::TICK_SKIP);
+            hst.w.int(*rng.pick(&[0, 0, 1, 5, 100000]));
+        }
     }
     if !rng.chance(1, 10) {
         hst.w.int(item::FINISH);
@@ -1816,6 +1868,61 @@ fn boundary_streams() -> Vec<(u32, Vec<u8>)> {
                     fin(w);
                 });
             }
+        }
+    }
+    // runs of 2–4 consecutive TICK_SKIPs (dt 0 / 1 / large / mixed) after a tick with player records,
+    // followed at once by a player record with a lower (PLAYER_DIFF) / equal (PLAYER_OLD) / higher
+    // (PLAYER_NEW) client id; the same at the start of the stream and right before FINISH
+    // (seeded change C17-6: `prev_player_cid` not cleared by a TICK_SKIP that arrives outside a tick)
+    for run in 2..=4usize {
+        for pat in 0..4usize {
+            let dts: Vec<i32> = (0..run)
+                .map(|j| match pat {
+                    0 => 0,
+                    1 => 1,
+                    2 => 1000000 + j as i32,
+                    _ => [0, 3, 0, 70000][j],
+                })
+                .collect();
+            for follow in 0..3 {
+                let dts = dts.clone();
+                add(2, &move |w| {
+                    new(w, 2, 0, 0);
+                    new(w, 5, 0, 0);
+                    for &dt in &dts {
+                        skip(w, dt);
+                    }
+                    match follow {
+                        0 => diff(w, 2, 1, 1),
+                        1 => {
+                            w.int(item::PLAYER_OLD);
+                            w.int(5);
+                        }
+                        _ => new(w, 7, 3, 3),
+                    }
+                    diff(w, 2, 1, 1);
+                    skip(w, 0);
+                    diff(w, 2, 1, 1);
+                    fin(w);
+                });
+            }
+            let dts2 = dts.clone();
+            add(2, &move |w| {
+                for &dt in &dts2 {
+                    skip(w, dt);
+                }
+                new(w, 0, 0, 0);
+                diff(w, 0, 1, 1);
+                fin(w);
+            });
+            let dts3 = dts.clone();
+            add(2, &move |w| {
+                new(w, 1, 0, 0);
+                for &dt in &dts3 {
+                    skip(w, dt);
+                }
+                fin(w);
+            });
         }
     }
     // D11 shape: player record, explicit skip, lower cid
